@@ -313,6 +313,99 @@ def render_assoc(idx, recv, override):
 """
 
 
+def render_assoc_sig(idx, recv, form):
+    """A required method whose signature mentions an associated type, called from a delegated body."""
+    decl = recv_decl(recv)
+    t = "Self::T" if form == "short" else "<Self as Tr>::T"
+    if recv == "ref":
+        call, setup = "u.p(3)", "let u = Unimock::new(clause);"
+    elif recv == "mut":
+        call, setup = "u.p(3)", "let mut u = Unimock::new(clause);"
+    elif recv == "own":
+        call, setup = "u.clone().p(3)", "let u = Unimock::new(clause);"
+    elif recv == "pin":
+        call, setup = "core::pin::Pin::new(&mut u).p(3)", "let mut u = Unimock::new(clause);"
+    else:
+        raise ValueError(recv)
+    return f"""    #[unimock(api=Mk, type T = u16;)]
+    pub trait Tr {{
+        type T: From<u8> + Into<u32>;
+        fn conv(&self, x: u8) -> {t};
+        fn take(&self, v: {t}, w: u8) -> u32;
+        fn p({decl}, x: u8) -> u32 where Self: Sized {{
+            let t = self.conv(x);
+            self.take(t, x) + 1
+        }}
+    }}
+    pub fn run() -> Result<(), String> {{
+        let clause = (
+            Mk::conv.next_call(matching!(3)).returns(20u16),
+            Mk::take.next_call(matching!(20, 3)).answers(&|_, v, w| 100 + v as u32 + w as u32),
+        );
+        {setup}
+        let got = vh::obs::catch(|| {call});
+        if got != Ok(124) {{
+            return Err(format!("the default body calling required methods whose signatures mention the associated type gave {{got:?}}, the same body over the same mock gives 124"));
+        }}
+        #[allow(unused_mut)]
+        let mut u = u;
+        let _ = &mut u;
+        vh::obs::catch(move || drop(u)).map_err(|m| format!("verification failed although both ordered calls were made: {{m}}"))
+    }}
+"""
+
+
+def render_mirror(idx, explicit):
+    """A trait mocked through `mirror=`: its provided methods are declared with placeholder bodies,
+    the bodies that run are the mirrored trait's own."""
+    extra = "UpMock::put_pair.next_call(matching!(1, 2)).applies_default_impl(), " if explicit else ""
+    return f"""    pub mod up {{
+        pub trait Up {{
+            fn put(&mut self, x: u8);
+            fn get(&self, x: u8) -> u32;
+            fn put_pair(&mut self, a: u8, b: u8) {{
+                self.put(a);
+                self.put(b);
+            }}
+            fn note(&self, a: u8) {{
+                let _ = self.get(a);
+            }}
+            fn sum(&self, a: u8, b: u8) -> u32 {{
+                self.get(a) + self.get(b)
+            }}
+        }}
+    }}
+    #[unimock(api=UpMock, mirror=up::Up)]
+    pub trait Up {{
+        fn put(&mut self, x: u8);
+        fn get(&self, x: u8) -> u32;
+        fn put_pair(&mut self, a: u8, b: u8) {{}}
+        fn note(&self, a: u8) {{}}
+        fn sum(&self, a: u8, b: u8) -> u32 {{}}
+    }}
+    pub fn run() -> Result<(), String> {{
+        use up::Up as _;
+        let mut u = Unimock::new((
+            {extra}UpMock::put.next_call(matching!(1)).returns(()),
+            UpMock::put.next_call(matching!(2)).returns(()),
+            UpMock::get.each_call(matching!(_)).answers(&|_, x| x as u32 * 10).n_times(3),
+        ));
+        vh::obs::catch(std::panic::AssertUnwindSafe(|| u.put_pair(1, 2))).map_err(|m| format!("put_pair(1, 2): {{m}}"))?;
+        let snap = unimock::verif::snapshot(&u);
+        let counts: Vec<usize> = snap.method("Up::put").map(|m| m.patterns.iter().map(|p| p.count).collect()).unwrap_or_default();
+        if counts != vec![1usize, 1] {{
+            return Err(format!("after put_pair(1, 2) the mirrored default body must have called put(1) and put(2) on the same mock; counters of Up::put: {{counts:?}}"));
+        }}
+        vh::obs::catch(|| u.note(5)).map_err(|m| format!("note(5): {{m}}"))?;
+        let got = vh::obs::catch(|| u.sum(3, 4));
+        if got != Ok(70) {{
+            return Err(format!("sum(3, 4) through the mirrored default body gave {{got:?}}, expected 70"));
+        }}
+        vh::obs::catch(move || drop(u)).map_err(|m| format!("verification failed although every expected call was made through the default bodies: {{m}}"))
+    }}
+"""
+
+
 def render_nested(idx, variant):
     """Delegation inside delegation, and a derived mock lent from inside a delegated body: the
     default bodies run against the same mock, and the final verification judges the counts."""
@@ -491,6 +584,11 @@ def run(pid, tier, replay, start):
         for override in (True, False):
             k = f"assoc-items/{recv}/{'attribute-overrides-default-const' if override else 'default-const-kept'}"
             insts.append(Instance(len(insts), k, render_assoc(len(insts), recv, override), {"body": 1, "recv": recv}))
+    for recv in ("ref", "mut", "own", "pin"):
+        for form in ("short", "qualified"):
+            insts.append(Instance(len(insts), f"assoc-type-in-required-signature/{recv}/{form}", render_assoc_sig(len(insts), recv, form), {"body": 1, "recv": recv}))
+    for explicit in (False, True):
+        insts.append(Instance(len(insts), f"mirrored-trait/{'applies_default_impl' if explicit else 'no-clause'}", render_mirror(len(insts), explicit), {"body": 1, "recv": "mut"}))
     for recv in RECVS:
         for partial in (False, True):
             insts.append(Instance(len(insts), f"zero-clauses/{recv}/{'partial' if partial else 'strict'}", render_zero_clauses(len(insts), recv, partial), {"body": 1, "recv": recv}))
@@ -522,7 +620,7 @@ def run(pid, tier, replay, start):
     cov = {
         "evaluations": len(kept),
         "distinct_nontrivial": len(set(i.key for i in kept if i.meta["body"] != 0)),
-        "rule": "receiver of the provided method {&self,&mut self,self,Rc,Arc,Pin} x default body calling 0..3 required methods (plus a by-value required call for by-value receivers, plus a lent reference) x signature {(u8), (u8,&str,&mut u32)} x {no clause, applies_default_impl()} x {strict, partial} x {unordered exact counts, one global ordered sequence}; each instance runs a history mixing direct and delegated calls; non-trivial = the body calls at least one required method; distinct = distinct shape keys",
+        "rule": "receiver of the provided method {&self,&mut self,self,Rc,Arc,Pin} x default body calling 0..3 required methods (plus a by-value required call for by-value receivers, plus a lent reference) x signature {(u8), (u8,&str,&mut u32)} x {no clause, applies_default_impl()} x {strict, partial} x {unordered exact counts, one global ordered sequence}; each instance runs a history mixing direct and delegated calls; plus associated consts/types read by the body, associated types in the signatures of the required methods the body calls, a trait mocked through mirror= (placeholder bodies, unit and non-unit provided methods), zero clauses, delegation after a recorded failure, delegation in delegation; non-trivial = the body calls at least one required method; distinct = distinct shape keys",
         "samples": [{"shape": sample.key, "code": sample.code[:1800]}],
         "exhaustive": True,
         "generated": len(insts),
